@@ -40,10 +40,38 @@ def gen_hists(ctx, cfg, simulate=None, depth=None, seed=None, timeout=900):
     return out, r
 
 
-def to_schedule(hist, sid, rng, cfg, observe, maint, with_every=2, biglen=0):
+def prelude(kind):
+    """Committed base state written before the TLC history (transaction ids 8, 9): tombstones and expired
+    entries, so that histories read DELETED / EXPIRED keys that a concurrent transaction then re-creates."""
+    B = lambda t: {"op": "Begin", "t": t, "upd": True}
+    C = lambda t: {"op": "Commit", "t": t}
+    if kind == 1:
+        return [B(9), {"op": "Set", "t": 9, "k": "k1", "v": "p1"}, {"op": "Del", "t": 9, "k": "k2"}, C(9)]
+    if kind == 2:
+        return [B(9), {"op": "Del", "t": 9, "k": "k1"}, {"op": "Set", "t": 9, "k": "k2", "v": "p2", "exp": True}, C(9)]
+    if kind == 3:
+        return [B(9), {"op": "Set", "t": 9, "k": "k1", "v": "p3"}, {"op": "Set", "t": 9, "k": "k2", "v": "p4"}, C(9),
+                B(8), {"op": "Del", "t": 8, "k": "k1"}, C(8)]
+    if kind == 4:      # one write per transaction (fits the smallest batch limit)
+        return [B(9), {"op": "Del", "t": 9, "k": "k1"}, C(9), B(8), {"op": "Set", "t": 8, "k": "k2", "v": "p5", "exp": True}, C(8)]
+    return []
+
+
+def fillers(n, start):
+    """n cheap committed transactions on a key of their own: they only advance the timestamps (and, with a
+    shrunk read-mark window, force WaterMark.rebuildWindowLocked while older transactions are still open)."""
+    ops = []
+    for j in range(n):
+        t = 50 + (start + j) % 40
+        ops += [{"op": "Begin", "t": t, "upd": True}, {"op": "Set", "t": t, "k": "kf", "v": "f%d" % (start + j)}, {"op": "Commit", "t": t}]
+    return ops
+
+
+def to_schedule(hist, sid, rng, cfg, observe, maint, with_every=2, biglen=0, pre=0):
     """Model history -> driver schedule: integer transaction ids, unique value tokens, maintenance
     actions between steps, CommitWith for every with_every-th commit, Reopen + Dump at the end."""
-    ops, n, closed, ncommit = [], 0, False, 0
+    ops, n, closed, ncommit = prelude(pre), 0, False, 0
+    nfill = 0
     active = set()
     for h in hist:
         o = h["op"]
@@ -75,6 +103,9 @@ def to_schedule(hist, sid, rng, cfg, observe, maint, with_every=2, biglen=0):
             raise Undecided("unknown model action %r" % o)
         if o in ("Commit", "Discard"):
             active.discard(t)
+        if o == "Commit" and cfg.get("window") and not closed and rng.random() < 0.6:
+            k = cfg["window"] + 2
+            ops += fillers(k, nfill); nfill += k
         if maint and not closed and rng.random() < 0.3:
             ops += [dict(x) for x in rng.choice(MAINT)]
             if not active and rng.random() < 0.4:     # restart in the middle of a history (no transaction open)
@@ -92,11 +123,30 @@ def project(ev):
     e = ev["e"]
     if e == "Maint":
         return {"e": "Maint", "ok": bool(ev.get("ok", True)) and not str(ev.get("res", "")).startswith("ERR")}
-    if e in ("Panic", "Hang", "Open", "Close"):
-        return {"e": "Maint", "ok": False}
+    if e in ("Panic", "Hang", "Open", "Close", "Crash"):
+        return {"e": "Maint", "ok": False}      # the engine panicked / killed the process while executing a history
+    if e == "Set" and ev.get("exp"):
+        return {"e": "Del", "t": ev["t"], "k": ev["k"], "ok": ev["ok"]}      # an expired value reads like a tombstone
+    if e == "CCommit":
+        return {"e": "CCommit", "t": ev["t"], "r": ev["r"], "w": ev["w"]}
+    if e == "CDump":
+        return {"e": "CDump", "ents": ev["ents"]}
     if e == "Commit":
         return {"e": "Commit", "t": ev["t"], "r": ev["r"], "vers": ev["vers"], "nk": ev["nk"]}
     return {k: ev[k] for k in ("e", "t", "rts", "upd", "k", "v", "r", "ok", "ents", "res") if k in ev}
+
+
+def project_trace(events):
+    """An expired value is projected as a tombstone (Set exp -> Del); the same goes for the stored entry
+    that carries its (unique) value token in a dump."""
+    exp = {ev["v"] for ev in events if ev["e"] == "Set" and ev.get("exp")}
+    out = []
+    for ev in events:
+        p = project(ev)
+        if exp and "ents" in p:
+            p = dict(p, ents=[dict(x, v="TOMB") if x["v"] in exp else x for x in p["ents"]])
+        out.append(p)
+    return out
 
 
 def run_driver(ctx, scheds):
@@ -165,7 +215,7 @@ def run(ctx):
     # ---------------------------------------------------------------- M1
     m1cfgs = ["MC_Oracle_err.cfg"] if c04 else ["MC_Oracle.cfg"]
     if not quick:
-        m1cfgs = ["MC_Oracle_err.cfg", "MC_Oracle_collide.cfg"] if c04 else ["MC_Oracle_big.cfg", "MC_Oracle_collide.cfg"]
+        m1cfgs = ["MC_Oracle_err.cfg", "MC_Oracle_collide.cfg"] if c04 else ["MC_Oracle_big.cfg", "MC_Oracle_collide.cfg", "MC_Oracle_reopen.cfg"]
     ctx._specdir()
     import concurrent.futures as cf
 
@@ -190,10 +240,17 @@ def run(ctx):
     # ---------------------------------------------------------------- M2
     hists = []
     num = 150 if quick else 1500
-    gens = [("Gen_Oracle_err.cfg", 21)] if c04 else [("Gen_Oracle.cfg", 20), ("Gen_Oracle_ro.cfg", 20)]
+    gens = [("Gen_Oracle_err.cfg", 21)] if c04 else [("Gen_Oracle.cfg", 20), ("Gen_Oracle_ro.cfg", 20), ("Gen_Oracle_hot.cfg", 14)]
     for i, (g, depth) in enumerate(gens):
-        hs, r = gen_hists(ctx, g, simulate="num=%d" % (num // len(gens)), depth=depth, seed=ctx.seed * 100 + i)
-        hists += [(g, h) for h in hs]
+        # TLC draws 12x as many behaviours as are executed; those in which the model itself reports a conflict
+        # (flag c of the Commit action) are preferred, up to 60 % of the share, the rest is taken as drawn
+        share = num // len(gens)
+        hs, r = gen_hists(ctx, g, simulate="num=%d" % (12 * share), depth=depth, seed=ctx.seed * 100 + i)
+        hot = [h for h in hs if any(x["op"] == "Commit" and x.get("c") for x in h)]
+        cold = [h for h in hs if not any(x["op"] == "Commit" and x.get("c") for x in h)]
+        pick = hot[:share * 6 // 10]
+        pick += cold[:share - len(pick)]
+        hists += [(g, h) for h in pick]
     nsim = len(hists)
     nall = 0
     if not quick and not c04:
@@ -213,7 +270,25 @@ def run(ctx):
                 cfg["maxcount"] = 3 + (i % 3)          # limit-1 / limit writes around the model's bound
             if i % 5 == 4:
                 cfg["hotlimit"] = 4                     # hot-key throttling makes some Set/Delete calls fail
-        scheds.append(to_schedule(h, len(scheds), ctx.rng, cfg, observe=(i % 2 == 0), maint=(i % 3 != 0)))
+            pre = (0, 4, 4)[i % 3]
+        else:
+            pre = (0, 1, 2, 3)[i % 4]                   # deleted / expired keys in the base state
+            if g == "Gen_Oracle_hot.cfg":
+                pre = (2, 3)[i % 2]                     # the single hot key is a tombstone in the base state
+            if i % 4 == 3:
+                cfg["window"] = 4                       # read-mark window of 4 indices + filler commits
+        scheds.append(to_schedule(h, len(scheds), ctx.rng, cfg, observe=(i % 2 == 0), maint=(i % 3 != 0), biglen=biglen, pre=pre))
+    nconc = 0
+    if c04:
+        # free-running commits: several goroutines commit at the same moment (coalesced into batches by
+        # WriteBatchWait), in most schedules one WAL file write fails in the middle
+        for j in range(12 if quick else 60):
+            cfg = dict(ENGINES[j % 2], fault=True, waitms=250)
+            # each request costs about two WAL file writes: failing write 1..4 hits the first or second request of
+            # the batch, so that un-applied requests sit behind it
+            ops = prelude((0, 1, 3)[j % 3]) + [{"op": "Concurrent", "n": 4 + j % 3, "fail": (0 if j % 6 == 5 else 1 + ctx.rng.randrange(4))}]
+            scheds.append({"id": len(scheds), "cfg": cfg, "keys": ["k1", "k2"], "observe": False, "ops": ops})
+            nconc += 1
     replays = json.load(open(os.path.join(VERIF, "findings", "txn_replays.json")))
     nrep = 0
     for rp in replays:
@@ -226,12 +301,12 @@ def run(ctx):
                 s = to_schedule(rp["hist"], len(scheds), ctx.rng, dict(cfg, **rp.get("cfg", {})), observe=False, maint=False, with_every=0)
             s["replay"] = rp["id"]
             scheds.append(s); nrep += 1
-    ctx.log("M2: %d TLC histories (%d simulated, %d exhaustive) -> %d schedules incl. %d recorded replays" % (len(hists), nsim, nall, len(scheds), nrep))
+    ctx.log("M2: %d TLC histories (%d simulated, %d exhaustive) -> %d schedules incl. %d free-running and %d recorded replays" % (len(hists), nsim, nall, len(scheds), nconc, nrep))
     traces = run_driver(ctx, scheds)
     order = sorted(traces)
     if len(order) != len(scheds):
         raise Undecided("driver produced %d traces for %d schedules" % (len(order), len(scheds)))
-    tl = [[project(e) for e in traces[s]] for s in order]
+    tl = [project_trace(traces[s]) for s in order]
     # ---------------------------------------------------------------- M3
     rejected = []
     parts = [p for p in chunks(list(range(len(tl))), max(1, min(ctx.workers, 6))) if p]
@@ -281,6 +356,9 @@ def run(ctx):
         c, o, e = overlap_features(traces[sid])
         tot[0] += c; tot[1] += o; tot[2] += e
         for ev in traces[sid]:
+            if ev["e"] == "CCommit":
+                replies["concurrent:" + ev["r"]] = replies.get("concurrent:" + ev["r"], 0) + 1
+                e += ev["r"] != "ok"
             if ev["e"] == "Commit":
                 replies[ev["r"]] = replies.get(ev["r"], 0) + 1
             elif ev["e"] in ("Set", "Del") and not ev["ok"]:
